@@ -137,7 +137,11 @@ Qed.
 
 Lemma parse_line_sep b2 t : b2 = 168 \/ b2 = 169 ->
   parse_str ([92; 117; 50; 48; 50; hexd (b2 - 160)] ++ t) = pcons [226; 128; b2] (parse_str t).
-Proof. intros [-> | ->]; vm_compute; reflexivity. Qed.
+Proof.
+  intros [-> | ->]; cbn [app].
+  - rewrite (parse_u4 50 48 50 (hexd (168 - 160)) 8232 t eq_refl eq_refl). reflexivity.
+  - rewrite (parse_u4 50 48 50 (hexd (169 - 160)) 8233 t eq_refl eq_refl). reflexivity.
+Qed.
 
 (* ---- strings: the whole string ---- *)
 Lemma parse_str_esc_len n : forall s, (length s <= n)%nat -> utf8_valid s = true ->
@@ -171,4 +175,519 @@ Theorem parse_print_string s rest : utf8_valid s = true ->
 Proof.
   intros H. rewrite (parse_str_esc_len (length s) s (le_n _) H).
   cbn [parse_str N.eqb Pos.eqb pcons]. now rewrite app_nil_r.
+Qed.
+
+(* ---- numbers ---- *)
+Definition num_stop (rest : list N) : bool :=
+  match rest with
+  | [] => true
+  | c :: _ => negb (is_digit c) && negb (c =? 46) && negb (c =? 101) && negb (c =? 69)
+  end.
+
+Lemma digits_spec s : forall ds r, digits s = (ds, r) ->
+  s = ds ++ r /\ match r with [] => True | c :: _ => is_digit c = false end.
+Proof.
+  induction s as [|c s IH]; intros ds r H; cbn [digits] in H.
+  - inversion H; subst. auto.
+  - destruct (is_digit c) eqn:D.
+    + destruct (digits s) as [ds' r'] eqn:E. inversion H; subst.
+      destruct (IH ds' r eq_refl) as [-> Hr]. auto.
+    + inversion H; subst. cbn [app]. rewrite D. auto.
+Qed.
+
+Lemma digits_app s : forall ds r rest, digits s = (ds, r) ->
+  (r = [] -> num_stop rest = true) -> digits (s ++ rest) = (ds, r ++ rest).
+Proof.
+  induction s as [|c s IH]; intros ds r rest H Hs; cbn [digits] in H.
+  - inversion H; subst. cbn [app]. specialize (Hs eq_refl).
+    destruct rest as [|x rest]; [reflexivity|]. cbn [digits]. cbn [num_stop] in Hs.
+    replace (is_digit x) with false by (destruct (is_digit x); [discriminate Hs|reflexivity]). reflexivity.
+  - cbn [app digits]. destruct (is_digit c) eqn:D.
+    + destruct (digits s) as [ds' r'] eqn:E. inversion H; subst.
+      now rewrite (IH ds' r rest eq_refl Hs).
+    + inversion H; subst. reflexivity.
+Qed.
+
+Lemma num_stop_cases rest : num_stop rest = true ->
+  rest = [] \/ exists c r, rest = c :: r /\ is_digit c = false /\ c <> 46 /\ c <> 101 /\ c <> 69.
+Proof.
+  destruct rest as [|c r]; [auto|]. cbn [num_stop]. intros H. right. exists c, r.
+  destruct (is_digit c); [discriminate H|]. repeat split; lia.
+Qed.
+
+Lemma scan_int_spec s p r : scan_int s = Some (p, r) -> s = p ++ r /\ p <> [] /\
+  exists c p', p = c :: p' /\ is_digit c = true.
+Proof.
+  destruct s as [|c s]; [discriminate|]. cbn [scan_int].
+  destruct (c =? 48) eqn:E.
+  - intros H. inversion H; subst. apply N.eqb_eq in E. subst c.
+    split; [reflexivity|]. split; [discriminate|]. exists 48, []. auto.
+  - destruct (is_digit c) eqn:D; [|discriminate].
+    destruct (digits s) as [ds r'] eqn:G. intros H. inversion H; subst.
+    destruct (digits_spec _ _ _ G) as [-> _].
+    split; [reflexivity|]. split; [discriminate|]. exists c, ds. auto.
+Qed.
+
+Lemma scan_int_app s p r rest : scan_int s = Some (p, r) -> (r = [] -> num_stop rest = true) ->
+  scan_int (s ++ rest) = Some (p, r ++ rest).
+Proof.
+  destruct s as [|c s]; [discriminate|]. cbn [scan_int app].
+  destruct (c =? 48); [intros H _; now inversion H|].
+  destruct (is_digit c); [|discriminate].
+  destruct (digits s) as [ds r'] eqn:G. intros H Hs. inversion H; subst.
+  now rewrite (digits_app _ _ _ rest G Hs).
+Qed.
+
+Lemma scan_frac_spec s p r : scan_frac s = Some (p, r) -> s = p ++ r.
+Proof.
+  destruct s as [|d s]; cbn [scan_frac]; [intros H; now inversion H|].
+  destruct (d =? 46) eqn:E.
+  - destruct (digits s) as [fs r'] eqn:G. destruct (is_nil fs); [discriminate|].
+    intros H. inversion H; subst. apply N.eqb_eq in E. subst d.
+    destruct (digits_spec _ _ _ G) as [-> _]. reflexivity.
+  - intros H. now inversion H.
+Qed.
+
+Lemma scan_frac_app s p r rest : scan_frac s = Some (p, r) -> (r = [] -> num_stop rest = true) ->
+  scan_frac (s ++ rest) = Some (p, r ++ rest).
+Proof.
+  destruct s as [|d s]; cbn [scan_frac app].
+  - intros H Hs. inversion H; subst. specialize (Hs eq_refl).
+    destruct (num_stop_cases _ Hs) as [->|(c & r & -> & _ & Hc & _)]; [reflexivity|].
+    cbn [scan_frac app]. replace (c =? 46) with false by lia. reflexivity.
+  - destruct (d =? 46) eqn:E.
+    + destruct (digits s) as [fs r'] eqn:G. destruct (is_nil fs) eqn:Nil; [discriminate|].
+      intros H Hs. inversion H; subst. rewrite (digits_app _ _ _ rest G Hs). now rewrite Nil.
+    + intros H _. now inversion H.
+Qed.
+
+Lemma scan_sign_spec s sg r : scan_sign s = (sg, r) -> s = sg ++ r.
+Proof.
+  destruct s as [|g s]; cbn [scan_sign]; [intros H; now inversion H|].
+  destruct ((g =? 43) || (g =? 45)); intros H; now inversion H.
+Qed.
+
+Lemma scan_exp_spec s p r : scan_exp s = Some (p, r) -> s = p ++ r.
+Proof.
+  destruct s as [|e s]; cbn [scan_exp]; [intros H; now inversion H|].
+  destruct ((e =? 101) || (e =? 69)).
+  - destruct (scan_sign s) as [sg r1] eqn:S. destruct (digits r1) as [es r2] eqn:G.
+    destruct (is_nil es); [discriminate|]. intros H. inversion H; subst.
+    rewrite (scan_sign_spec _ _ _ S). destruct (digits_spec _ _ _ G) as [-> _].
+    cbn [app]. now rewrite app_assoc.
+  - intros H. now inversion H.
+Qed.
+
+Lemma scan_exp_app s p r rest : scan_exp s = Some (p, r) -> (r = [] -> num_stop rest = true) ->
+  scan_exp (s ++ rest) = Some (p, r ++ rest).
+Proof.
+  destruct s as [|e s]; cbn [scan_exp app].
+  - intros H Hs. inversion H; subst. specialize (Hs eq_refl).
+    destruct (num_stop_cases _ Hs) as [->|(c & r & -> & _ & _ & Hc1 & Hc2)]; [reflexivity|].
+    cbn [scan_exp app]. replace ((c =? 101) || (c =? 69)) with false by lia. reflexivity.
+  - destruct ((e =? 101) || (e =? 69)) eqn:E.
+    + destruct (scan_sign s) as [sg r1] eqn:S. destruct (digits r1) as [es r2] eqn:G.
+      destruct (is_nil es) eqn:Nil; [discriminate|]. intros H Hs. inversion H; subst.
+      assert (S' : scan_sign (s ++ rest) = (sg, r1 ++ rest)).
+      { destruct s as [|g s'].
+        - cbn [scan_sign] in S. inversion S; subst. cbn [digits] in G. inversion G; subst. discriminate Nil.
+        - cbn [scan_sign app] in *. destruct ((g =? 43) || (g =? 45)); inversion S; subst; reflexivity. }
+      rewrite S', (digits_app _ _ _ rest G Hs). now rewrite Nil.
+    + intros H _. now inversion H.
+Qed.
+
+Lemma scan_number_spec s t r : scan_number s = Some (t, r) ->
+  s = t ++ r /\ exists c t', t = c :: t' /\ ((c =? 45) || is_digit c) = true.
+Proof.
+  unfold scan_number.
+  set (sp := match s with c :: r0 => if c =? 45 then ([45], r0) else ([], s) | [] => ([], s) end).
+  assert (Hsp : s = fst sp ++ snd sp /\ (fst sp = [] \/ fst sp = [45])).
+  { subst sp. destruct s as [|c r0]; [auto|]. destruct (c =? 45) eqn:E; cbn [fst snd app]; [|auto].
+    apply N.eqb_eq in E. subst c. auto. }
+  destruct sp as [sign s1]. cbn [fst snd] in Hsp. destruct Hsp as [Hs Hsign].
+  destruct (scan_int s1) as [[ip r1]|] eqn:I; [|discriminate].
+  destruct (scan_frac r1) as [[fp r2]|] eqn:F; [|discriminate].
+  destruct (scan_exp r2) as [[ep r3]|] eqn:X; [|discriminate].
+  intros H. inversion H; subst t r. clear H.
+  destruct (scan_int_spec _ _ _ I) as (E1 & _ & c & p' & Ep & Dc).
+  pose proof (scan_frac_spec _ _ _ F) as E2. pose proof (scan_exp_spec _ _ _ X) as E3.
+  split.
+  - rewrite Hs, E1, E2, E3. now rewrite <- !app_assoc.
+  - destruct Hsign as [-> | ->].
+    + exists c, (p' ++ fp ++ ep). subst ip. cbn [app]. split; [reflexivity|]. rewrite Dc. apply orb_true_r.
+    + exists 45, (ip ++ fp ++ ep). auto.
+Qed.
+
+Lemma scan_number_app s t r rest : scan_number s = Some (t, r) -> (r = [] -> num_stop rest = true) ->
+  scan_number (s ++ rest) = Some (t, r ++ rest).
+Proof.
+  unfold scan_number. intros H Hs.
+  assert (Hsp : exists sign s1,
+    match s with c :: r0 => if c =? 45 then ([45], r0) else ([], s) | [] => ([], s) end = (sign, s1) /\
+    (s1 <> [] -> match s ++ rest with c :: r0 => if c =? 45 then ([45], r0) else ([], s ++ rest) | [] => ([], s ++ rest) end
+                 = (sign, s1 ++ rest))).
+  { destruct s as [|c r0]; [exists [], []; split; [reflexivity|congruence]|].
+    cbn [app]. destruct (c =? 45); eexists _, _; split; try reflexivity; auto. }
+  destruct Hsp as (sign & s1 & E & E'). rewrite E in H.
+  destruct (scan_int s1) as [[ip r1]|] eqn:I; [|discriminate].
+  assert (Hne : s1 <> []) by (intros ->; discriminate I).
+  rewrite (E' Hne).
+  destruct (scan_frac r1) as [[fp r2]|] eqn:F; [|discriminate].
+  destruct (scan_exp r2) as [[ep r3]|] eqn:X; [|discriminate].
+  inversion H; subst t r. clear H.
+  assert (H2 : r2 = [] -> r3 = []).
+  { intros ->. cbn [scan_exp] in X. now inversion X. }
+  assert (H1 : r1 = [] -> r2 = []).
+  { intros ->. cbn [scan_frac] in F. now inversion F. }
+  rewrite (scan_int_app _ _ _ rest I) by auto.
+  rewrite (scan_frac_app _ _ _ rest F) by auto.
+  rewrite (scan_exp_app _ _ _ rest X) by auto. reflexivity.
+Qed.
+
+Theorem scan_number_print t rest : is_number t = true -> num_stop rest = true ->
+  scan_number (t ++ rest) = Some (t, rest) /\ exists c t', t = c :: t' /\ ((c =? 45) || is_digit c) = true.
+Proof.
+  unfold is_number. intros H Hs. destruct (scan_number t) as [[t' r]|] eqn:E; [|discriminate].
+  destruct r; [|discriminate]. destruct (scan_number_spec _ _ _ E) as [Et Hc].
+  rewrite app_nil_r in Et. subst t'. split; [|exact Hc].
+  now rewrite (scan_number_app _ _ _ rest E).
+Qed.
+
+(* ---- values: fuel that suffices, first characters, dispatch ---- *)
+Fixpoint need (v : jvalue) : nat :=
+  match v with
+  | JArr l => S (fold_right (fun x a => S (need x + a)) O l)
+  | JObj l => S (fold_right (fun kv a => S (need (snd kv) + a)) O l)
+  | _ => 1
+  end.
+Definition need_elems (l : list jvalue) : nat := fold_right (fun x a => S (need x + a)) O l.
+Definition need_members (l : list (list N * jvalue)) : nat := fold_right (fun kv a => S (need (snd kv) + a)) O l.
+Definition ldepth (l : list jvalue) : nat := fold_right (fun x m => Nat.max (jdepth x) m) O l.
+Definition mdepth (l : list (list N * jvalue)) : nat := fold_right (fun kv m => Nat.max (jdepth (snd kv)) m) O l.
+
+Lemma json_print_arr l : json_print (JArr l) = 91 :: print_elems l.
+Proof. reflexivity. Qed.
+
+Lemma json_print_obj l : json_print (JObj l) = 123 :: print_members l.
+Proof. reflexivity. Qed.
+
+Definition vstart (c : N) : Prop := is_ws c = false /\ c <> 93 /\ c <> 125 /\ c <> 44.
+
+Lemma print_head v : jwf v = true -> exists c r, json_print v = c :: r /\ vstart c.
+Proof.
+  destruct v as [ |b|t|s|l|l]; intros H.
+  - exists 110, [117; 108; 108]. split; [reflexivity|]. unfold vstart, is_ws. lia.
+  - destruct b; eexists _, _; (split; [reflexivity|]); unfold vstart, is_ws; lia.
+  - cbn [jwf] in H. destruct (scan_number_print t [] H eq_refl) as [_ (c & t' & -> & Hc)].
+    exists c, t'. split; [reflexivity|]. unfold vstart, is_ws, is_digit in *. lia.
+  - exists 34, (esc_string s ++ [34]). split; [reflexivity|]. unfold vstart, is_ws. lia.
+  - rewrite json_print_arr. eexists _, _. split; [reflexivity|]. unfold vstart, is_ws. lia.
+  - rewrite json_print_obj. eexists _, _. split; [reflexivity|]. unfold vstart, is_ws. lia.
+Qed.
+
+Lemma skip_ws_start c r : is_ws c = false -> skip_ws (c :: r) = c :: r.
+Proof. intros H. cbn [skip_ws]. now rewrite H. Qed.
+
+Lemma skip_ws_print v rest : jwf v = true -> skip_ws (json_print v ++ rest) = json_print v ++ rest.
+Proof.
+  intros H. destruct (print_head v H) as (c & r & -> & Hc & _). cbn [app]. now apply skip_ws_start.
+Qed.
+
+Local Opaque max_depth.
+
+Lemma pv_null f d r : parse_value (S f) d (110 :: r) =
+  match lit [117; 108; 108] r with Some r' => POk (JNull, r') | None => PErr end.
+Proof. reflexivity. Qed.
+Lemma pv_true f d r : parse_value (S f) d (116 :: r) =
+  match lit [114; 117; 101] r with Some r' => POk (JBool true, r') | None => PErr end.
+Proof. reflexivity. Qed.
+Lemma pv_false f d r : parse_value (S f) d (102 :: r) =
+  match lit [97; 108; 115; 101] r with Some r' => POk (JBool false, r') | None => PErr end.
+Proof. reflexivity. Qed.
+Lemma pv_str f d r : parse_value (S f) d (34 :: r) =
+  match parse_str r with POk (str, r') => POk (JStr str, r') | PErr => PErr | PFuel => PFuel end.
+Proof. reflexivity. Qed.
+Lemma pv_arr f d r : parse_value (S f) d (91 :: r) =
+  if Nat.leb max_depth d then PErr
+  else match skip_ws r with
+       | c1 :: r1 =>
+         if c1 =? 93 then POk (JArr [], r1)
+         else match parse_elems f (S d) (c1 :: r1) with
+              | POk (l, r') => POk (JArr l, r')
+              | PErr => PErr
+              | PFuel => PFuel
+              end
+       | [] => PErr
+       end.
+Proof. reflexivity. Qed.
+Lemma pv_obj f d r : parse_value (S f) d (123 :: r) =
+  if Nat.leb max_depth d then PErr
+  else match skip_ws r with
+       | c1 :: r1 =>
+         if c1 =? 125 then POk (JObj [], r1)
+         else match parse_members f (S d) (c1 :: r1) with
+              | POk (l, r') => POk (JObj l, r')
+              | PErr => PErr
+              | PFuel => PFuel
+              end
+       | [] => PErr
+       end.
+Proof. reflexivity. Qed.
+Lemma pv_num f d c r : ((c =? 45) || is_digit c) = true -> parse_value (S f) d (c :: r) =
+  match scan_number (c :: r) with Some (t, r') => POk (JNum t, r') | None => PErr end.
+Proof.
+  intros H. cbn [parse_value]. unfold is_digit in H.
+  replace (c =? 110) with false by lia. replace (c =? 116) with false by lia.
+  replace (c =? 102) with false by lia. replace (c =? 34) with false by lia.
+  replace (c =? 91) with false by lia. replace (c =? 123) with false by lia.
+  unfold is_digit. now rewrite H.
+Qed.
+
+Lemma lit_app l rest : lit l (l ++ rest) = Some rest.
+Proof. induction l as [|x l IH]; [reflexivity|]. cbn [lit app]. now rewrite N.eqb_refl. Qed.
+
+(* ---- print, then read: the main induction ---- *)
+Definition reads_back (v : jvalue) : Prop :=
+  jwf v = true -> forall fuel d rest, (need v <= fuel)%nat -> (d + jdepth v <= max_depth)%nat ->
+  num_stop rest = true -> parse_value fuel d (json_print v ++ rest) = POk (v, rest).
+
+Lemma elems_read_back l : Forall reads_back l -> l <> [] -> forallb jwf l = true ->
+  forall fuel d rest, (need_elems l <= fuel)%nat -> (d + ldepth l <= max_depth)%nat ->
+  parse_elems fuel d (print_elems l ++ rest) = POk (l, rest).
+Proof.
+  induction 1 as [|x l Hx Hl IH]; intros Hne Hwf fuel d rest Hf Hd; [congruence|].
+  cbn [forallb] in Hwf. apply andb_true_iff in Hwf. destruct Hwf as [Wx Wl].
+  cbn [need_elems fold_right] in Hf. fold (need_elems l) in Hf.
+  cbn [ldepth fold_right] in Hd. fold (ldepth l) in Hd.
+  destruct fuel as [|f]; [lia|]. cbn [parse_elems print_elems]. rewrite <- app_assoc.
+  destruct l as [|y l'].
+  - cbn [app]. rewrite (Hx Wx f d (93 :: rest)) by (try reflexivity; lia).
+    cbn [skip_ws is_ws N.eqb Pos.eqb orb]. reflexivity.
+  - change ((44 :: print_elems (y :: l')) ++ rest) with (44 :: print_elems (y :: l') ++ rest).
+    rewrite (Hx Wx f d (44 :: print_elems (y :: l') ++ rest)) by (try reflexivity; lia).
+    cbn [skip_ws is_ws N.eqb Pos.eqb orb].
+    assert (Wy : jwf y = true) by (cbn [forallb] in Wl; apply andb_true_iff in Wl; apply Wl).
+    assert (Sk : skip_ws (print_elems (y :: l') ++ rest) = print_elems (y :: l') ++ rest).
+    { cbn [print_elems]. rewrite <- app_assoc. now apply skip_ws_print. }
+    rewrite Sk. rewrite (IH ltac:(discriminate) Wl f d rest) by lia. reflexivity.
+Qed.
+
+Lemma members_read_back l : Forall (fun kv => reads_back (snd kv)) l -> l <> [] ->
+  forallb (fun kv => utf8_valid (fst kv) && jwf (snd kv)) l = true ->
+  forall fuel d rest, (need_members l <= fuel)%nat -> (d + mdepth l <= max_depth)%nat ->
+  parse_members fuel d (print_members l ++ rest) = POk (l, rest).
+Proof.
+  induction 1 as [|[k x] l Hx Hl IH]; intros Hne Hwf fuel d rest Hf Hd; [congruence|].
+  cbn [forallb fst snd] in Hwf. apply andb_true_iff in Hwf. destruct Hwf as [Wx Wl].
+  apply andb_true_iff in Wx. destruct Wx as [Wk Wx]. cbn [snd] in Hx.
+  cbn [need_members fold_right snd] in Hf. fold (need_members l) in Hf.
+  cbn [mdepth fold_right snd] in Hd. fold (mdepth l) in Hd.
+  destruct fuel as [|f]; [lia|]. cbn [print_members]. unfold print_string.
+  cbn [app]. cbn [parse_members]. cbn [N.eqb Pos.eqb].
+  rewrite <- !app_assoc. cbn [app]. rewrite (parse_print_string k _ Wk).
+  cbn [skip_ws is_ws N.eqb Pos.eqb orb].
+  destruct l as [|[k' y] l'].
+  - rewrite <- app_assoc. cbn [app]. rewrite skip_ws_print by exact Wx.
+    rewrite (Hx Wx f d (125 :: rest)) by (try reflexivity; lia).
+    cbn [skip_ws is_ws N.eqb Pos.eqb orb]. reflexivity.
+  - rewrite <- app_assoc.
+    change ((44 :: print_members ((k', y) :: l')) ++ rest) with (44 :: print_members ((k', y) :: l') ++ rest).
+    rewrite skip_ws_print by exact Wx.
+    rewrite (Hx Wx f d (44 :: print_members ((k', y) :: l') ++ rest)) by (try reflexivity; lia).
+    cbn [skip_ws is_ws N.eqb Pos.eqb orb].
+    assert (Sk : skip_ws (print_members ((k', y) :: l') ++ rest) = print_members ((k', y) :: l') ++ rest).
+    { cbn [print_members]. unfold print_string. cbn [app]. now apply skip_ws_start. }
+    rewrite Sk. rewrite (IH ltac:(discriminate) Wl f d rest) by lia. reflexivity.
+Qed.
+
+Lemma all_read_back v : reads_back v.
+Proof.
+  induction v as [ |b|t|s|l IH|l IH] using jvalue_ind'; intros Hwf fuel d rest Hf Hd Hs;
+    (destruct fuel as [|f]; [cbn [need] in Hf; lia|]).
+  - cbn [json_print app]. rewrite pv_null. cbn [lit N.eqb Pos.eqb]. reflexivity.
+  - destruct b; cbn [json_print app].
+    + rewrite pv_true. cbn [lit N.eqb Pos.eqb]. reflexivity.
+    + rewrite pv_false. cbn [lit N.eqb Pos.eqb]. reflexivity.
+  - cbn [jwf] in Hwf. cbn [json_print].
+    destruct (scan_number_print t rest Hwf Hs) as [E (c & t' & -> & Hc)].
+    cbn [app]. rewrite pv_num by exact Hc. cbn [app] in E. now rewrite E.
+  - cbn [jwf] in Hwf. cbn [json_print]. unfold print_string. cbn [app]. rewrite pv_str.
+    rewrite <- app_assoc. cbn [app]. now rewrite (parse_print_string s rest Hwf).
+  - cbn [jwf] in Hwf. rewrite json_print_arr. cbn [app]. rewrite pv_arr.
+    cbn [jdepth] in Hd. fold (ldepth l) in Hd. cbn [need] in Hf. fold (need_elems l) in Hf.
+    replace (Nat.leb max_depth d) with false by (symmetry; apply Nat.leb_gt; lia).
+    destruct l as [|x l'].
+    + cbn [print_elems app skip_ws is_ws N.eqb Pos.eqb orb]. reflexivity.
+    + assert (Wx : jwf x = true) by (cbn [forallb] in Hwf; apply andb_true_iff in Hwf; apply Hwf).
+      assert (Sk : skip_ws (print_elems (x :: l') ++ rest) = print_elems (x :: l') ++ rest).
+      { cbn [print_elems]. rewrite <- app_assoc. now apply skip_ws_print. }
+      rewrite Sk.
+      assert (Hd' : exists c r, print_elems (x :: l') ++ rest = c :: r /\ c <> 93).
+      { cbn [print_elems]. destruct (print_head x Wx) as (c & r & -> & _ & H93 & _).
+        cbn [app]. eauto. }
+      destruct Hd' as (c & r & E & H93). rewrite E.
+      replace (c =? 93) with false by lia. rewrite <- E.
+      rewrite (elems_read_back (x :: l') IH ltac:(discriminate) Hwf f (S d) rest) by lia. reflexivity.
+  - cbn [jwf] in Hwf. rewrite json_print_obj. cbn [app]. rewrite pv_obj.
+    cbn [jdepth] in Hd. fold (mdepth l) in Hd. cbn [need] in Hf. fold (need_members l) in Hf.
+    replace (Nat.leb max_depth d) with false by (symmetry; apply Nat.leb_gt; lia).
+    destruct l as [|[k x] l'].
+    + cbn [print_members app skip_ws is_ws N.eqb Pos.eqb orb]. reflexivity.
+    + assert (E : exists r, print_members ((k, x) :: l') ++ rest = 34 :: r).
+      { cbn [print_members]. unfold print_string. cbn [app]. eauto. }
+      destruct E as (r & E). rewrite E. cbn [skip_ws is_ws N.eqb Pos.eqb orb]. rewrite <- E.
+      rewrite (members_read_back ((k, x) :: l') IH ltac:(discriminate) Hwf f (S d) rest) by lia. reflexivity.
+Qed.
+
+(* ---- the fuel of [json_parse] suffices for what [json_print] produced ---- *)
+Lemma need_le v : (need v <= 2 * length (json_print v) + 1)%nat.
+Proof.
+  induction v as [ |b|t|s|l IH|l IH] using jvalue_ind'; try (cbn [need]; lia).
+  - rewrite json_print_arr. cbn [need length]. fold (need_elems l).
+    assert (H : (need_elems l <= 2 * length (print_elems l))%nat).
+    { induction IH as [|x l' Hx _ IHl]; [cbn; lia|].
+      cbn [need_elems fold_right print_elems]. fold (need_elems l'). rewrite app_length.
+      destruct l' as [|y l'']; [cbn [need_elems fold_right length] in *; lia|].
+      cbn [length]. lia. }
+    lia.
+  - rewrite json_print_obj. cbn [need length]. fold (need_members l).
+    assert (H : (need_members l <= 2 * length (print_members l))%nat).
+    { induction IH as [|[k x] l' Hx _ IHl]; [cbn; lia|]. cbn [snd] in Hx.
+      cbn [need_members fold_right print_members snd]. fold (need_members l').
+      rewrite !app_length. cbn [length]. rewrite app_length.
+      destruct l' as [|y l'']; [cbn [need_members fold_right length] in *; lia|].
+      cbn [length]. lia. }
+    lia.
+Qed.
+
+(* ---- main theorem: reading what was printed ---- *)
+Theorem json_parse_print v : jwf v = true -> (jdepth v <= max_depth)%nat ->
+  json_parse (json_print v) = POk v.
+Proof.
+  intros Hwf Hd. unfold json_parse, json_fuel.
+  rewrite <- (app_nil_r (json_print v)) at 2. rewrite skip_ws_print by exact Hwf.
+  rewrite (all_read_back v Hwf _ 0%nat [] (need_le v) ltac:(lia) eq_refl). reflexivity.
+Qed.
+
+(* ---- the reader always finishes within its fuel ---- *)
+Definition shrinks {A} (x : presult (A * list N)) (m : nat) : Prop :=
+  match x with
+  | POk (_, r) => (length r < m)%nat
+  | PErr => True
+  | PFuel => False
+  end.
+
+Lemma shrinks_pcons bs (x : presult (list N * list N)) m m' :
+  shrinks x m -> (m <= m')%nat -> shrinks (pcons bs x) m'.
+Proof. destruct x as [[s r]| |]; cbn [shrinks pcons]; intros; try lia; auto. Qed.
+
+Lemma skip_ws_len s : (length (skip_ws s) <= length s)%nat.
+Proof. induction s as [|c s IH]; [cbn; lia|]. cbn [skip_ws]. destruct (is_ws c); cbn [length]; lia. Qed.
+
+Lemma lit_len l : forall s r, lit l s = Some r -> (length r <= length s)%nat.
+Proof.
+  induction l as [|x l IH]; intros s r H; cbn [lit] in H; [inversion H; lia|].
+  destruct s as [|y s]; [discriminate|]. destruct (x =? y); [|discriminate].
+  apply IH in H. cbn [length]. lia.
+Qed.
+
+Lemma parse_str_len n : forall s, (length s <= n)%nat -> shrinks (parse_str s) (length s).
+Proof.
+  induction n as [|n IH]; intros s Hn.
+  - destruct s; [exact I|cbn in Hn; lia].
+  - destruct s as [|c r]; [exact I|]. cbn [parse_str].
+    repeat match goal with
+    | |- shrinks PErr _ => exact I
+    | |- shrinks (POk _) _ => cbn [shrinks length]; lia
+    | |- shrinks (pcons _ (parse_str ?t)) _ =>
+      apply (shrinks_pcons _ _ (length t)); [apply IH; cbn [length] in *; lia|cbn [length]; lia]
+    | |- shrinks (if ?b then _ else _) _ => destruct b
+    | |- shrinks (match ?x with _ => _ end) _ => destruct x
+    end.
+Qed.
+
+Lemma scan_number_len s t r : scan_number s = Some (t, r) -> (length r < length s)%nat.
+Proof.
+  intros H. destruct (scan_number_spec _ _ _ H) as [-> (c & t' & -> & _)].
+  rewrite app_length. cbn [length]. lia.
+Qed.
+
+Lemma skip_ws_cons s c r : skip_ws s = c :: r -> (S (length r) <= length s)%nat.
+Proof. intros H. pose proof (skip_ws_len s) as L. rewrite H in L. exact L. Qed.
+
+Lemma parse_total f :
+  (forall d s, (2 * length s + 1 <= f)%nat -> shrinks (parse_value f d s) (length s)) /\
+  (forall d s, (2 * length s + 2 <= f)%nat -> shrinks (parse_elems f d s) (length s)) /\
+  (forall d s, (2 * length s + 2 <= f)%nat -> shrinks (parse_members f d s) (length s)).
+Proof.
+  induction f as [|f (IHv & IHe & IHm)].
+  - repeat split; intros d s H; lia.
+  - repeat split; intros d s H.
+    + destruct s as [|c r]; [exact I|]. cbn [length] in H. cbn [parse_value].
+      destruct (c =? 110).
+      { destruct (lit [117; 108; 108] r) eqn:L; [|exact I]. apply lit_len in L. cbn [shrinks length]. lia. }
+      destruct (c =? 116).
+      { destruct (lit [114; 117; 101] r) eqn:L; [|exact I]. apply lit_len in L. cbn [shrinks length]. lia. }
+      destruct (c =? 102).
+      { destruct (lit [97; 108; 115; 101] r) eqn:L; [|exact I]. apply lit_len in L. cbn [shrinks length]. lia. }
+      destruct (c =? 34).
+      { pose proof (parse_str_len (length r) r (le_n _)) as P.
+        destruct (parse_str r) as [[str r']| |]; cbn [shrinks length] in *; auto; lia. }
+      destruct (c =? 91).
+      { destruct (Nat.leb max_depth d); [exact I|].
+        destruct (skip_ws r) as [|c1 r1] eqn:E; [exact I|]. apply skip_ws_cons in E.
+        destruct (c1 =? 93); [cbn [shrinks length]; lia|].
+        pose proof (IHe (S d) (c1 :: r1) ltac:(cbn [length]; lia)) as P.
+        destruct (parse_elems f (S d) (c1 :: r1)) as [[l r']| |]; cbn [shrinks length] in *; auto; lia. }
+      destruct (c =? 123).
+      { destruct (Nat.leb max_depth d); [exact I|].
+        destruct (skip_ws r) as [|c1 r1] eqn:E; [exact I|]. apply skip_ws_cons in E.
+        destruct (c1 =? 125); [cbn [shrinks length]; lia|].
+        pose proof (IHm (S d) (c1 :: r1) ltac:(cbn [length]; lia)) as P.
+        destruct (parse_members f (S d) (c1 :: r1)) as [[l r']| |]; cbn [shrinks length] in *; auto; lia. }
+      destruct ((c =? 45) || is_digit c); [|exact I].
+      destruct (scan_number (c :: r)) as [[t r']|] eqn:S; [|exact I].
+      apply scan_number_len in S. cbn [shrinks length] in *. lia.
+    + cbn [parse_elems].
+      pose proof (IHv d s ltac:(lia)) as P.
+      destruct (parse_value f d s) as [[v r]| |]; cbn [shrinks] in P; [|exact I|contradiction].
+      destruct (skip_ws r) as [|c r1] eqn:E; [exact I|]. apply skip_ws_cons in E.
+      destruct (c =? 44).
+      { pose proof (skip_ws_len r1) as L1.
+        pose proof (IHe d (skip_ws r1) ltac:(lia)) as Q.
+        destruct (parse_elems f d (skip_ws r1)) as [[l r']| |]; cbn [shrinks] in *; auto; lia. }
+      destruct (c =? 93); [cbn [shrinks]; lia|exact I].
+    + cbn [parse_members]. destruct s as [|q r0]; [exact I|]. cbn [length] in H.
+      destruct (q =? 34); [|exact I].
+      pose proof (parse_str_len (length r0) r0 (le_n _)) as P.
+      destruct (parse_str r0) as [[k r]| |]; cbn [shrinks] in P; [|exact I|contradiction].
+      destruct (skip_ws r) as [|c r1] eqn:E; [exact I|]. apply skip_ws_cons in E.
+      destruct (c =? 58); [|exact I].
+      pose proof (skip_ws_len r1) as L1.
+      pose proof (IHv d (skip_ws r1) ltac:(lia)) as Q.
+      destruct (parse_value f d (skip_ws r1)) as [[v r2]| |]; cbn [shrinks] in Q; [|exact I|contradiction].
+      destruct (skip_ws r2) as [|c2 r3] eqn:E2; [exact I|]. apply skip_ws_cons in E2.
+      destruct (c2 =? 44).
+      { pose proof (skip_ws_len r3) as L3.
+        pose proof (IHm d (skip_ws r3) ltac:(lia)) as R.
+        destruct (parse_members f d (skip_ws r3)) as [[l r']| |]; cbn [shrinks length] in *; auto; lia. }
+      destruct (c2 =? 125); [cbn [shrinks length]; lia|exact I].
+Qed.
+
+Theorem json_parse_total text : json_parse text <> PFuel.
+Proof.
+  unfold json_parse, json_fuel. pose proof (skip_ws_len text) as L.
+  destruct (parse_total (2 * length text + 1)) as (Hv & _ & _).
+  specialize (Hv 0%nat (skip_ws text) ltac:(lia)).
+  destruct (parse_value (2 * length text + 1) 0 (skip_ws text)) as [[v r]| |]; cbn [shrinks] in Hv.
+  - destruct (is_nil (skip_ws r)); discriminate.
+  - discriminate.
+  - contradiction.
+Qed.
+
+(* so every text is either read as a tree or refused *)
+Theorem json_parse_decides text :
+  (exists v, json_parse text = POk v) \/ json_parse text = PErr.
+Proof.
+  pose proof (json_parse_total text) as T. destruct (json_parse text) as [v| |]; [eauto|auto|congruence].
 Qed.
